@@ -98,6 +98,13 @@ namespace fastscapelib
     {
         if (m_paused)
         {
+            {
+                // a paused worker holds the mutex from before it is counted as
+                // paused until it actually waits on the condition variable:
+                // acquiring the mutex here ensures that no worker can miss the
+                // notification below
+                std::lock_guard<std::mutex> lk(m_cv_m);
+            }
             FASTSCAPELIB_VERIF_SCHED(resume_before_notify, static_cast<std::size_t>(-1));
             m_cv.notify_all();
             FASTSCAPELIB_VERIF_SCHED(resume_after_notify, static_cast<std::size_t>(-1));
